@@ -389,10 +389,10 @@ def call_method(fr, recv: Any, name: str, args: list, kwargs: dict, node: ast.AS
         if name == "split":
             if s.is_concrete():
                 return s.concrete().split(*[_c(a) for a in args])
-            hk = I.stubs.get("hook:split")
-            if hk:
-                return hk(fr, s, args)
-            raise AnalysisError("split on symbolic string")
+            try:
+                return s.split(_c(args[0]) if args else None)
+            except Undecided as u:
+                raise AnalysisError(f"split undecided: {u.descr}")
         if name in ("isdigit", "isalpha", "isalnum") and s.is_concrete():
             return getattr(s.concrete(), name)()
         if name == "encode":
